@@ -435,7 +435,11 @@ def case_targets(mon, fi, jde):
     valid = [t for (m, t, k) in FINDERS if m == meth]
     bad = ["", target[:1], target[:-1], target[1:], target[:5],
            target.upper(), target.capitalize(), target + " ", " " + target,
-           "".join(valid), valid[0] + valid[-1], "ern", "ing", "e", "none"]
+           "".join(valid), valid[0] + valid[-1], "ern", "ing", "e", "none",
+           # what a pattern match or a stripped comparison lets through
+           target + "\n", target + "\r\n", target + "\t", "\n" + target,
+           target + "\x00", target + "\n\n", target + "s",
+           target + " moon", target + "|" + valid[0], ".*", target + "$"]
     for b in bad:
         if b in valid:
             continue
